@@ -46,7 +46,7 @@ prop("C07", title="capacity honest / reservation contract / stability", equiv=["
 prop("C08", title="alignment", equiv=["EquivAlign.alignment_equiv", "EquivMaxAlign.max_align_equiv", "EquivCtor.with_alignment_equiv"], trusted=[HAND, EXTR])
 prop("C09", title="impossible sizes", equiv=["next_aligned_equiv", "make_layout_equiv"], quick_n=480, thorough_n=4000, child_timeout=15,
      trusted=[HAND, EXTR, "Eval.v's reading of usize arithmetic (panic in debug, wrap in release), checked_add/checked_mul and Layout::from_size_align"])
-prop("C10", title="iterator protocol", equiv=["EquivIter.drain_next_equiv", "EquivIter.drain_next_back_equiv", "EquivIter.into_next_equiv", "EquivIter.into_next_back_equiv", "EquivIter.into_len_equiv", "EquivIter.into_size_hint_equiv", "EquivDrain.into_new_equiv", "EquivIter.splice_next_equiv", "EquivIter.splice_next_back_equiv", "EquivIter.drain_size_hint_equiv", "EquivIter.splice_size_hint_equiv", "EquivFilter.loop_equivF", "EquivFilter.filter_next_equiv"], trusted=[HAND, EXTR])
+prop("C10", title="iterator protocol", equiv=["EquivIter.drain_next_equiv", "EquivIter.drain_next_back_equiv", "EquivIter.into_next_equiv", "EquivIter.into_next_back_equiv", "EquivIter.into_len_equiv", "EquivIter.into_size_hint_equiv", "EquivDrain.into_new_equiv", "EquivIter.splice_next_equiv", "EquivIter.splice_next_back_equiv", "EquivIter.drain_size_hint_equiv", "EquivIter.splice_size_hint_equiv", "EquivFilter.loop_equivF", "EquivFilter.filter_next_equiv", "EquivFilter.filter_size_hint_equiv"], trusted=[HAND, EXTR])
 prop("C11", title="out-of-range arguments rejected atomically", equiv=["EquivDrain.drain_equiv", "EquivDrain.splice_equiv"], trusted=[HAND, EXTR])
 prop("C12", equiv=["EquivClone.loop_equivC", "EquivClone.clone_equiv", "EquivDrain.into_clone_equiv", "EquivExtSlice.loop_equivS", "EquivExtSlice.extend_from_slice_equiv", "EquivExtSlice.loop_equivFS", "EquivExtSlice.from_slice_equiv"], title="clones deep and independent", trusted=[HAND, EXTR, UBDEF])
 prop("C13", title="handle is one pointer wide with a niche", impl="sizes",
